@@ -17,6 +17,7 @@ mod ops9;
 mod ops10;
 mod ops11;
 mod ops12;
+mod ops13;
 
 fn main() {
     std::panic::set_hook(Box::new(|_| {}));
